@@ -2,7 +2,7 @@
 import ast
 
 from vstat.loader import AnalysisError
-from vstat.terms import CMP, IT, guarded_alts, builder, show, SELF, NONE, G, alts, walk, mentions, phi, galts
+from vstat.terms import degrade, top_alts, CMP, IT, guarded_alts, builder, show, SELF, NONE, G, alts, walk, mentions, phi, galts
 from vstat.guards import path_conditions
 from vstat.cfg import cfg_of
 from vstat.sigs import bind
@@ -107,6 +107,11 @@ def design(prog, rep):
     for s in cfg.all_stmts():
         if isinstance(s, ast.Expr) and isinstance(s.value, ast.Call) and isinstance(s.value.func, ast.Attribute) and s.value.func.attr == "append" and cfg.enclosing_loops(s):
             a = b.term(s.value.args[0], s)
+            # a value chosen earlier (a None sentinel for "no crossing"): keep the alternatives the statement's own guards allow
+            pc_s = {degrade(x_) for x_ in pcs.of(s)}
+            live = [v_ for l_, v_ in top_alts(a) if not any(("not", degrade(x_)) in pc_s or (x_[0] == "not" and degrade(x_[1]) in pc_s) for x_ in l_)]
+            if len(live) == 1:
+                a = live[0]
             if a == x2:
                 fx = (s, s.value.func.value.id)
             elif a in (("call", G("numpy.max"), (ys,), ()), ("call", G("max"), (ys,), ())):
@@ -181,7 +186,11 @@ def design(prog, rep):
         bd = bind(tt) if tt[0] == "call" and tt[1] == G("numpy.linspace") else None
         if bd:
             # the count may be chosen before the call (steps = 10 when None, then one shared linspace): split by its guards
-            for lits, num in guarded_alts(bd.get("num", ("const", 50))):
+            num_t = bd.get("num", ("const", 50))
+            not_none = [l_[1][1] for l_ in pcs.of(d.stmt) if l_[0] == "not" and l_[1][0] == "isnone"]
+            for lits, num in guarded_alts(num_t):
+                if num == NONE and any(degrade(x_) == degrade(num_t) for x_ in not_none):
+                    continue   # the call runs under 'count is not None': the None alternative of the count does not reach it
                 conds = set(pcs.of(d.stmt)) | set(lits)
                 kind = "none" if ("isnone", P("steps")) in conds else "int" if any(l[0] == "handler" for l in conds) else "?"
                 got.append((kind, dict(bd, num=num)))
